@@ -46,9 +46,20 @@ type AtCall struct {
 	Pattern string // callee key, or suffix match
 	Args    []string
 	Asserts []*Clause
+	// optional site filter "where ARG from CALLEE": only call sites whose argument
+	// ARG is the result of a call to CALLEE
+	FromArg    string
+	FromCallee string
+}
+
+type SetClause struct {
+	Ghost string
+	E     Expr
+	Src   string
 }
 
 type FuncSpec struct {
+	Sets     []*SetClause // ghost assignments performed at return (definitional)
 	Key      string
 	Assumed  bool
 	Params   []string // names for assumed functions (receiver first)
@@ -76,6 +87,7 @@ type Define struct {
 	Body   Expr
 	Src    string
 	Opaque bool // elaborated as an uninterpreted function (per heap state) with a definitional axiom
+	Stable bool // opaque, and inside a `modifies nothing` function always evaluated in the entry state (see DESIGN: stable predicates)
 }
 
 type Axiom struct {
@@ -104,7 +116,7 @@ func NewSpecs() *Specs {
 
 var trailingComment = regexp.MustCompile(`\s{2,}#.*$`)
 
-var kwRe = regexp.MustCompile(`^(requires|ensures|invariant|decreases|assert|modifies|loop|at-call|func|assumed|fun|axiom|define|opaque|ghost|sort|pure)\b(\[[^\]]*\])?\s*(.*)$`)
+var kwRe = regexp.MustCompile(`^(requires|ensures|invariant|decreases|assert|modifies|loop|at-call|func|assumed|fun|axiom|define|opaque|stable|ghost|sort|pure|sets)\b(\[[^\]]*\])?\s*(.*)$`)
 
 type rawItem struct {
 	kw, tags, rest string
@@ -181,7 +193,7 @@ func (s *Specs) LoadFile(path string, commentPrefix string) error {
 			s.Funs[fd.Name] = fd
 			s.FunList = append(s.FunList, fd)
 			cur = nil
-		case "define", "opaque":
+		case "define", "opaque", "stable":
 			eq := strings.Index(rest, " = ")
 			if eq < 0 {
 				return perr(it, "define f(args) T = body")
@@ -194,7 +206,7 @@ func (s *Specs) LoadFile(path string, commentPrefix string) error {
 			if err != nil {
 				return perr(it, "%v", err)
 			}
-			s.Defines[fd.Name] = &Define{fd.Name, fd.Params, fd.Ret, body, rest, it.kw == "opaque"}
+			s.Defines[fd.Name] = &Define{fd.Name, fd.Params, fd.Ret, body, rest, it.kw == "opaque" || it.kw == "stable", it.kw == "stable"}
 			cur = nil
 		case "axiom":
 			c := strings.Index(rest, ":")
@@ -247,6 +259,19 @@ func (s *Specs) LoadFile(path string, commentPrefix string) error {
 				return perr(it, "pure outside func")
 			}
 			cur.Pure = true
+		case "sets":
+			if cur == nil {
+				return perr(it, "sets outside func")
+			}
+			eq := strings.Index(rest, "=")
+			if eq < 0 {
+				return perr(it, "sets GHOST = expr")
+			}
+			ex, err := ParseExpr(rest[eq+1:])
+			if err != nil {
+				return perr(it, "%v", err)
+			}
+			cur.Sets = append(cur.Sets, &SetClause{strings.TrimSpace(rest[:eq]), ex, rest})
 		case "loop":
 			if cur == nil {
 				return perr(it, "loop outside func")
@@ -272,6 +297,15 @@ func (s *Specs) LoadFile(path string, commentPrefix string) error {
 				return perr(it, "at-call outside func")
 			}
 			pat := strings.TrimSuffix(strings.TrimSpace(rest), ":")
+			fromArg, fromCallee := "", ""
+			if i := strings.Index(pat, " where "); i >= 0 {
+				f := strings.Fields(pat[i+7:])
+				if len(f) != 3 || f[1] != "from" {
+					return perr(it, "at-call KEY(args) where ARG from CALLEE")
+				}
+				fromArg, fromCallee = f[0], f[2]
+				pat = strings.TrimSpace(pat[:i])
+			}
 			var args []string
 			if strings.HasSuffix(pat, ")") {
 				o := strings.LastIndex(pat, "(")
@@ -286,7 +320,7 @@ func (s *Specs) LoadFile(path string, commentPrefix string) error {
 					pat = strings.TrimSpace(pat[:o])
 				}
 			}
-			curAt = &AtCall{Pattern: pat, Args: args}
+			curAt = &AtCall{Pattern: pat, Args: args, FromArg: fromArg, FromCallee: fromCallee}
 			cur.AtCalls = append(cur.AtCalls, curAt)
 			curLoop = nil
 		case "modifies":
